@@ -240,6 +240,18 @@ impl RollingWriter {
         self.directory.files.count() * FILE_NUM_BYTES
     }
 
+    /// The file in which the next write will land.
+    ///
+    /// The writer rolls over lazily: when the current file is exactly full, it stays the
+    /// current file until the next write, which creates (or reuses) the following file and goes
+    /// entirely into it. Returns `None` in that case if the following file does not exist yet.
+    pub fn file_of_next_write(&self) -> Option<FileNumber> {
+        if self.offset < FILE_NUM_BYTES {
+            return Some(self.file_number.clone());
+        }
+        self.directory.files.next(&self.file_number)
+    }
+
     #[cfg(test)]
     pub fn list_file_numbers(&self) -> Vec<u64> {
         self.directory
